@@ -745,11 +745,12 @@ Proof.
 Qed.
 
 Theorem step_places s ch : places_ok P s -> tr_at s -> (forall t p ls, ch = CPp t p ls -> G) ->
-  (forall x, ch = CSubmit x -> g_close_req s = false -> PQ P DDisp (fresh_of x)) -> PQ P DDisp (shutdown_marker c) ->
+  (forall x, ch = CSubmit x -> g_close_req s = false -> g_panic s = None -> PQ P DDisp (fresh_of x)) -> PQ P DDisp (shutdown_marker c) ->
   places_ok P (step c s ch).
 Proof.
-  intros H T HGc H1 H2. unfold step. destruct (g_panic s); [exact H|].
-  destruct (g_panic (raw_step c s ch)); [eapply places_same; [| | | |exact H]; reflexivity | apply raw_step_places; assumption].
+  intros H T HGc H1 H2. unfold step. destruct (g_panic s) eqn:Eps; [exact H|].
+  destruct (g_panic (raw_step c s ch)); [eapply places_same; [| | | |exact H]; reflexivity | apply raw_step_places; try assumption].
+  intros x Ex Ec. apply H1; [exact Ex | exact Ec | reflexivity].
 Qed.
 
 End Steps.
